@@ -32,7 +32,8 @@ REFUSALS = ['dup_row', 'type0_mix', 'vv_mix', 'missing_col', 'empty', 'not_df', 
 
 @st.composite
 def strategy_(draw):
-    case = draw(S.pipeline_case(WEIGHTS, anomalies=True, global_modes=True, p_default_prms=0.1))
+    case = draw(S.pipeline_case(WEIGHTS, anomalies=True, global_modes=True, p_default_prms=0.1,
+                                index_kinds=True))
     case['geoloc'] = draw(st.sampled_from([None, 'Somewhere', '', 'Zürich_#1 50%']))
     case['ref_dt'] = draw(st.sampled_from([None, '2024-01-01 00:00:00', 'datetime', 'whatever']))
     if draw(st.integers(0, 99)) < 15:
@@ -129,7 +130,8 @@ def check(case):
     shape = None
     try:
         with observe.GlobalPrms(case.get('gprms')):
-            chunk = ampycloud.run(observe.build_frame(case['rows']), prms=copy.deepcopy(case['prms']),
+            frame = S.apply_index(observe.build_frame(case['rows']), case.get('index', 'range'))
+            chunk = ampycloud.run(frame, prms=copy.deepcopy(case['prms']),
                                   geoloc=case.get('geoloc'), ref_dt=ref_dt)
         if type(chunk).__name__ != 'CeiloChunk':
             res.fail('return', 'run() did not return a CeiloChunk', type(chunk).__name__)
@@ -146,6 +148,8 @@ def check(case):
     res.key = [case['cls'], case.get('kind'), shape, lv, case.get('anomalies')]
     if case.get('anomalies'):
         res.labels += ['anomaly:' + a for a in case['anomalies']]
+    if case.get('index', 'range') != 'range':
+        res.labels.append('index:' + case['index'])
     if case.get('gprms'):
         res.labels.append('mode:' + case['gprms']['SLICING_PRMS']['height_scale_mode'])
     if shape and any(k >= 1 for k in shape[3]):
